@@ -35,7 +35,7 @@ def main():
         pth = m.group(1)
         if pth.startswith("out/") or pth.startswith("/"):
             continue
-        if "/" in pth and pth not in places:
+        if "/" in pth and pth not in places and "statik" not in pth:
             places.append(pth)
     demos = sorted(f for f in os.listdir(mdir) if f.endswith(".go"))
     runm = re.search(r"run:\s*(.+)", txt)
@@ -47,6 +47,8 @@ def main():
         print("cannot parse demo_path.txt:\n" + txt)
         sys.exit(2)
     cmd = re.sub(r"<json>|<overlay[^>]*>|\$OVERLAY", ov, cmd)
+    cmd = re.sub(r"-overlay\s+\S*<ABS WORKTREE>\S*|-overlay\s+\S*out/overlay\S*\.json", "-overlay " + ov, cmd)
+    cmd = cmd.replace("<ABS WORKTREE>", wt)
     cmd = cmd.replace(wt.rstrip("/") + "/", "")
     if " -overlay" not in cmd and ("x/" in cmd and "x/epochs" not in cmd):
         cmd = cmd.replace("go test", "go test -vet=off -overlay %s" % ov, 1)
